@@ -20,6 +20,8 @@ Inductive msg : Type :=
 | MSend (from to : string) (amt : coins)                           (* bank MsgSend,      type "send" *)
 | MMulti (from : string) (inp : coins) (outs : list (string * coins))  (* bank MsgMultiSend, type "multisend" (one input) *)
 | MCustody (from to : string) (amt : coins) (reward : coins)       (* custody MsgSend,   type "custody_send" *)
+| MEth (from to : string) (amount : Z)                             (* tokens MsgEthereumTx "NativeSend", type "ethereum_tx":
+                                                                      always the native token, amount = value / 10^12 *)
 | MOther (ty : string) (signers : list string) (fails : bool) (mark : string).
 
 Definition msg_type (m : msg) : string :=
@@ -27,24 +29,30 @@ Definition msg_type (m : msg) : string :=
   | MSend _ _ _ => "send"
   | MMulti _ _ _ => "multisend"
   | MCustody _ _ _ _ => "custody_send"
+  | MEth _ _ _ => "ethereum_tx"
   | MOther ty _ _ _ => ty
   end.
 Definition msg_signers (m : msg) : list string :=
   match m with
-  | MSend f _ _ => [f] | MMulti f _ _ => [f] | MCustody f _ _ _ => [f]
+  | MSend f _ _ => [f] | MMulti f _ _ => [f] | MCustody f _ _ _ => [f] | MEth f _ _ => [f]
   | MOther _ ss _ _ => ss
   end.
 Definition denoms (c : coins) : list string := map fst c.
-(* the (recipient, coins) pairs a message hands to other accounts when it executes *)
-Definition transfers (m : msg) : list (string * coins) :=
+(* the (recipient, coins) pairs a message hands to other accounts when it executes; [nat] is the
+   native denomination (the only one an Ethereum native send can carry) *)
+Definition transfers (nat : string) (m : msg) : list (string * coins) :=
   match m with
   | MSend _ t a => [(t, a)]
   | MMulti _ _ outs => outs
   | MCustody _ t a _ => [(t, a)]
+  | MEth _ t v => [(t, [(nat, v)])]
   | MOther _ _ _ _ => []
   end.
 (* denominations a message moves to another account *)
-Definition moved_by (m : msg) : list string := flat_map (fun o => denoms (snd o)) (transfers m).
+Definition moved_by (nat : string) (m : msg) : list string := flat_map (fun o => denoms (snd o)) (transfers nat m).
+(* message types whose handler moves a CALLER-CHOSEN denomination between accounts and that the
+   model represents structurally (the full table of such handlers is regenerated into
+   Gen/TransferSites.v) *)
 Definition transfer_types : list string := ["send"; "multisend"; "custody_send"]%string.
 
 (* ---------------------------------------------------------------- IsFrozen *)
@@ -89,7 +97,7 @@ Fixpoint bw_loop (sh : shape) (f : filt) (ms : list msg) : outcome unit :=
   match ms with
   | [] => Ok tt
   | m :: r =>
-      if (str_in (msg_type m) (sh_bw_types sh) && existsb (frozen f) (moved_by m))%bool
+      if (str_in (msg_type m) (sh_bw_types sh) && existsb (frozen f) (moved_by (f_native f) m))%bool
       then Err "token is frozen"
       else bw_loop sh f r
   end.
